@@ -307,6 +307,9 @@ REPLAYERS = {"dispatch": replay_dispatch, "part": replay_part, "kin": replay_kin
              "import": replay_import}
 
 
+SHARDABLE = True
+
+
 def run(chk, only=None):
     import yadism.coefficient_functions as cf
     from yadism import observable_name as on
@@ -329,7 +332,7 @@ def run(chk, only=None):
     chk.assume("NaNs produced inside external libraries are outside (that is what the scrubber is for -- its totality is what is checked)",
                "rejection set: ValueError, NotImplementedError, RuntimeError with a message")
     # ---- module imports (a module that cannot be imported turns every request through it into an internal error) ----
-    for fam in cm.FAMILIES:
+    for fam in cm.FAMILIES if chk.first else []:
         for mname, mod in cm.family_modules(fam):
             chk.obligations += 1
             if isinstance(mod, Exception):
@@ -343,6 +346,8 @@ def run(chk, only=None):
         nrej = 0
         for cell in cells:
             cname = ":".join(f"{k}={v}" for k, v in cell.items())
+            if not chk.mine(cname):
+                continue
             with Ctx(chk.seed) as ctx, cm.fixed_nf(), stubs.cf_stubs():
                 ex = explore.Explorer(ctx, max_paths=12, timeout_ms=3000)
                 paths = ex.run(lambda: dispatch_cell(cell, ctx.var("Q2", 0, None, wlo=5, whi=90)))
@@ -401,6 +406,8 @@ def run(chk, only=None):
             ccells.append(dict(kind=kind, flav=flav, proc=proc, sch=sch, nf=nf, zm=zm, pto=pto, pto_evol=pto_evol, ren=ren, fact=fact))
         ncomp = 0
         for cell in ccells:
+            if not chk.mine(sorted(cell.items())):
+                continue
             chk.obligations += 1
             chk.evaluations += 1
             try:
@@ -421,6 +428,8 @@ def run(chk, only=None):
         items = [it for it in items if it[6] == 3] if chk.tier == "quick" else items
         nparts = 0
         for key, fam, mname, cname_, cls, kws, nf, proc in items:
+            if not chk.mine(key):
+                continue
             for order in range(4):
                 with Ctx(chk.seed) as ctx, stubs.cf_stubs():
                     ex = explore.Explorer(ctx, max_paths=32, timeout_ms=3000)
@@ -466,6 +475,8 @@ def run(chk, only=None):
     # ---- C ----
     if only in (None, "kin"):
         for kind, tmc in itertools.product(cm.KINDS, (0, 1, 2, 3)):
+            if not chk.mine(f"kin{kind}{tmc}"):
+                continue
             case = dict(kind=kind, tmc=tmc)
             cname = f"kinematics:{kind}/TMC={tmc}"
             with Ctx(chk.seed) as ctx:
@@ -513,7 +524,7 @@ def run(chk, only=None):
                                       replay=lambda m, case=case, vals=vals: ("kin", dict(case=case, values=vals(m), expect_ok=True)),
                                       what=f"{cname}: admissible kinematics are rejected")
     # ---- D ----
-    if only in (None, "scrub"):
+    if only in (None, "scrub") and chk.first:
         names = [f"{k}_{f}" for k in on.kinds if k != on.fake_kind for f in on.external_flavors] + [k for k in on.sfs]
         if chk.tier == "quick":
             names = names[::5] + ["F2_total", "g1_charm", "XSHERANC_total"]
@@ -531,7 +542,7 @@ def run(chk, only=None):
                     chk.report("scrub:never-applied" if True else "", f"replace_nans_with_0 leaves a {bad} in {name}", "scrub",
                                dict(name=name, pos=list(pos), bad=str(bad)))
     # ---- E ----
-    if only in (None, "ch"):
+    if only in (None, "ch") and chk.first:
         for t in ("check_is_valid_total", "check_constructor_rejects_cleanly"):
             target = f"yv.ch.h_obsname.{t}"
             r = chrun.crosshair_check(target, timeout=90)
